@@ -38,17 +38,26 @@ func stageHarness() (string, error) {
 			return err
 		}
 		rel, _ := filepath.Rel(src, p)
-		if _, skip := excludedHarness[rel]; skip {
-			return nil // does not compile against this tree (see loadProgram)
-		}
 		data, err := os.ReadFile(p)
 		if err != nil {
 			return err
 		}
-		dst := filepath.Join(stage, rel)
-		os.MkdirAll(filepath.Dir(dst), 0o755)
-		if err := os.WriteFile(dst, data, 0o644); err != nil {
+		// one declaration per staged file (see split.go)
+		parts, err := splitHarnessFile(filepath.Base(p), data)
+		if err != nil {
 			return err
+		}
+		for _, part := range parts {
+			prel := filepath.Join(filepath.Dir(rel), part.name)
+			stagedDecl[prel] = part.decl
+			if _, skip := excludedHarness[prel]; skip {
+				continue // does not compile against this tree (see loadProgram)
+			}
+			dst := filepath.Join(stage, prel)
+			os.MkdirAll(filepath.Dir(dst), 0o755)
+			if err := os.WriteFile(dst, part.src, 0o644); err != nil {
+				return err
+			}
 		}
 		if m := pkgClauseRe.FindSubmatch(data); m != nil {
 			pkgOf[filepath.Dir(rel)] = string(m[1])
